@@ -17,6 +17,11 @@ CHECKS = {
    text="TLC checks NoCrash/NoStaleDelete/OwnClientOnly/InOrder on the code-shaped model of servePacket<->packetConn (all interleavings of 2 clients, 5 datagrams, 4 associations, scaled channel capacities) and, as a vacuity self-test, that the same invariants fail on the pinned-commit protocol. The real loop runs behind a scripted PacketConn in a child process for a TLC-enumerated grid of bursts (clients x datagrams x handler read counts x sizes x reader buffer sizes x pacing); a panic is a violation; recorded histories are validated by TLC against clauses U0-U4 of L4UdpAbs.",
    note="free-running goroutines (no forced interleavings yet); the 30 s idle expiry path is covered by the model only; event order is recording order under one lock",
    technique="TLA+ model of the UDP demultiplexing goroutines checked with TLC; trace validation of the real servePacket loop"),
+
+ "C13": dict(level="model_checking", design="5 C13, 4.3",
+   text="TLC checks AtMostOnce/OnlyFallThrough/NotClosedBeforeDelivery/ClosedWhenDone/NeverBoth/NoReuseWhileReferenced and the liveness property Drain (under fairness) on the code-shaped model of listener.go loop/handle/pipeConnection/Accept/Close with the buffer pool, for three connection mixes and channel capacity 1; the real ListenerWrapper (provisioned from JSON) runs around a scripted listener for a TLC-enumerated grid (connection mixes x consumer fast/slow/absent x GOMAXPROCS x stream length x close instant) and the recorded histories are validated by TLC against clauses L1-L7 of L4ListenerAbs (exactly-once delivery, intact stream from the first unconsumed byte, closure, goroutine leak).",
+   note="scripted listener and connections; free-running goroutines; TLS-terminated fall-through not exercised yet",
+   technique="TLA+ model of the listener-wrapper goroutines and buffer pool checked with TLC (safety + liveness); trace validation of the real ListenerWrapper"),
 }
 NA = {
 }
